@@ -4,7 +4,7 @@ t=$1; d=/tmp/auto_$t
 rm -rf $d && mkdir $d && git -C /repo archive HEAD | tar -x -C $d || exit 2
 python3 /verif/tools/autorefactor.py $d $t || exit 2
 cd /verif
-for p in C01 C02 C03 C04 C05 C06 C07 C08 C09 C10 C11 C12 C13 C14 C15 C16 C17 C19 C20; do
+for p in C01 C02 C03 C04 C05 C06 C07 C08 C09 C10 C11 C12 C13 C14 C15 C16 C17 C18 C19 C20; do
   ./check $p --tier quick --no-evidence --repo $d > $d.$p.log 2>&1; rc=$?
   echo "$t $p rc=$rc viol=$(grep -c '^VIOLATION' $d.$p.log) err=$(grep -c 'ANALYSIS-ERROR' $d.$p.log) known=$(grep -c '^KNOWN-FINDING' $d.$p.log)"
 done
